@@ -97,10 +97,17 @@ def main() -> int:
     secs = a.seconds or budget["seconds"]
     tmp = tempfile.mkdtemp(prefix=f"verif_{pid}_")
     procs = []
+    n_fuzz = 0
+    if a.tier == "thorough" and getattr(check, "ATHERIS", False) and not os.environ.get("VERIF_NO_ATHERIS"):
+        n_fuzz = min(4, nsh // 4)  # coverage-guided shards (atheris) next to the Hypothesis shards
     for i in range(nsh):
         out = os.path.join(tmp, f"shard{i}.json")
-        cmd = [PY, "-m", "vlib.harness", pid, "--tier", a.tier, "--seed", str(seed), "--shard", str(i),
-               "--nshards", str(nsh), "--seconds", str(secs), "--out", out]
+        if i >= nsh - n_fuzz:
+            cmd = [PY, "-m", "vlib.fuzzshard", pid, "--seed", str(seed), "--shard", str(i), "--nshards", str(nsh),
+                   "--seconds", str(secs), "--out", out, "--corpus", os.path.join(tmp, f"corpus{i}")]
+        else:
+            cmd = [PY, "-m", "vlib.harness", pid, "--tier", a.tier, "--seed", str(seed), "--shard", str(i),
+                   "--nshards", str(nsh), "--seconds", str(secs), "--out", out]
         env = dict(os.environ, PYTHONHASHSEED="0", PYTHONPATH=HERE)
         procs.append((i, out, subprocess.Popen(cmd, cwd=HERE, env=env, stdout=subprocess.PIPE, stderr=subprocess.STDOUT)))
     reports = []
@@ -121,9 +128,9 @@ def main() -> int:
             rep = reports[-1]
             if rep.get("harness_errors"):
                 harness_fail.append(f"shard {i}: {rep['harness_errors'][0][-3000:]}")
-    for f in glob.glob(os.path.join(tmp, "*")):
-        os.remove(f)
-    os.rmdir(tmp)
+    import shutil
+
+    shutil.rmtree(tmp, ignore_errors=True)
 
     # 3. merge
     nontrivial = set()
@@ -185,6 +192,7 @@ def main() -> int:
                 "duplicate_violations_not_rereported": dups,
                 "replayed_regression_cases": n_replayed,
                 "shards": nsh,
+                "atheris_shards": n_fuzz,
                 "shard_seconds": secs,
                 "tawazi_src": os.environ.get("TAWAZI_SRC", "/repo"),
                 **({"exhaustive": True} if phase_info.get("exhaustive") else {}),
